@@ -9,4 +9,5 @@ let table : (string * (Model.sx -> Model.sx)) list = [
   "post", Model.run_post;
   "visited", Model.run_visited;
   "rules", Model.run_rules;
+  "walk", Model.run_walk;
 ]
